@@ -1,8 +1,103 @@
+/-
+  C14 — signed messages: ops of the executable model (Model/Keys.lean, signmessage part).
+-/
 import Driver.Util
+import Driver.C13
+import BtcVerif.Model.Keys
+import BtcVerif.Spec.Keys
+import BtcVerif.Spec.Chain
 
 namespace Driver.C14
 open BtcVerif Driver
+open BtcVerif.Crypto
+open Driver.C13 (bit parseBool?)
 
-def handle (_op : String) (_args : List String) : Option String := none
+/-- text from a list of Unicode scalar values (surrogates / out-of-range are malformed input) -/
+def parseText? (s : String) : Option String := do
+  let cps ← parseNatList? s
+  let cs ← cps.mapM fun n => if h : n.isValidChar then some (Char.ofNatAux n h) else none
+  pure (String.ofList cs)
+
+def renderOptBytes (r : Res (Option Bytes)) : String :=
+  Res.render (r.map fun o => match o with | some b => toHex b | none => "False")
+
+/-- (version, payload) of the P2PKH address of a serialized key under a chain -/
+def p2pkh (ch : Spec.ChainParams) (pub : Bytes) : Nat × Bytes := (ch.pubkeyAddr, Model.Keys.p2pkhPayload pub)
+
+def vm (ch : Spec.ChainParams) (addr : Nat × Bytes) (magic msg sig : Bytes) : String :=
+  Res.render ((Model.Keys.verifyMessage ch.pubkeyAddr addr.1 addr.2 magic msg sig).map bit)
+
+def handle (op : String) (args : List String) : Option String :=
+  match op, args with
+  | "c14.digest", [magic, text] => some <|
+      match parseText? magic, parseText? text with
+      | some magic, some text =>
+          Res.render ((Model.Keys.msgDigest magic.toUTF8.toList text.toUTF8.toList).map toHex)
+      | _, _ => badArgs
+  | "c14.spec.digest", [magic, text] => some <|
+      match parseText? magic, parseText? text with
+      | some magic, some text => toHex (Spec.Keys.msgDigest magic.toUTF8.toList text.toUTF8.toList)
+      | _, _ => badArgs
+  | "c14.header", [recid, c] => some <|
+      match parseNat? recid, parseBool? c with
+      | some recid, some c => toString (Model.Keys.headerByte recid c)
+      | _, _ => badArgs
+  | "c14.headerDecode", [h] => some <|
+      match parseNat? h with
+      | some h => if h < 256 then
+          let (r, c) := Model.Keys.headerDecode h
+          s!"{r},{bit c}" else badArgs
+      | none => badArgs
+  | "c14.recoverCompact", [hash, sig] => some <|
+      match parseHex? hash, parseHex? sig with
+      | some hash, some sig => renderOptBytes (Model.Keys.recoverCompact hash sig)
+      | _, _ => badArgs
+  | "c14.signCompact", [secret, hash, sig64, recid] => some <|
+      -- check of what `sign_compact` returned: the DER form of (r, s) must lead the model of the
+      -- padding and recid search to exactly this (r‖s, recid)
+      match parseHex? secret, parseHex? hash, parseHex? sig64, parseNat? recid with
+      | some secret, some hash, some sig64, some recid =>
+          let r := beNat (sig64.take 32)
+          let s := beNat (sig64.drop 32)
+          let pubC := Model.Keys.pubOfSecret secret true
+          (match Model.Keys.signCompactFinish hash (Secp256k1.derEncode r s) pubC with
+           | .ok (sg, i) => if sg == sig64 && i == recid && Secp256k1.isLowS s then "ok"
+                            else s!"bad:model-recid={i},lowS={bit (Secp256k1.isLowS s)}"
+           | .error e => "err:" ++ e.family)
+      | _, _, _, _ => badArgs
+  | "c14.verify", [chain, ver, payload, magic, text, sig] => some <|
+      match Spec.chainByName? chain, parseNat? ver, parseHex? payload, parseText? magic, parseText? text,
+            parseHex? sig with
+      | some ch, some ver, some payload, some magic, some text, some sig =>
+          vm ch (ver, payload) magic.toUTF8.toList text.toUTF8.toList sig
+      | _, _, _, _, _, _ => badArgs
+  | "c14.msg", [chain, secret, c, text, other, text2, sig] => some <|
+      -- verdicts on a signature the library produced for (secret, compression, text):
+      -- length, header byte, reference recovery = signer's key, then VerifyMessage for the signer's
+      -- address / another key's address / the signer's hash under the script version / another text
+      match Spec.chainByName? chain, parseHex? secret, parseBool? c, parseText? text, parseHex? other,
+            parseText? text2, parseHex? sig with
+      | some ch, some secret, some c, some text, some other, some text2, some sig =>
+          let magic := Spec.Keys.messageMagic
+          let msg := text.toUTF8.toList
+          let pub := Model.Keys.pubOfSecret secret c
+          let digest := Spec.Keys.msgDigest magic msg
+          let hdr := match sig with | h :: _ => h.toNat | [] => 0
+          let r := beNat ((sig.drop 1).take 32)
+          let s := beNat ((sig.drop 33).take 32)
+          let hdrOk := match Spec.Keys.headerDecode hdr with
+            | some (recid, c') =>
+                c' == c &&
+                (match Secp256k1.recover (Secp256k1.digestNat digest) r s recid with
+                 | some Q => Secp256k1.encode Q c == pub
+                 | none => false)
+            | none => false
+          let own := vm ch (p2pkh ch pub) magic msg sig
+          let oth := vm ch (p2pkh ch (Model.Keys.pubOfSecret other c)) magic msg sig
+          let p2sh := vm ch (ch.scriptAddr, Model.Keys.p2pkhPayload pub) magic msg sig
+          let pert := vm ch (p2pkh ch pub) magic text2.toUTF8.toList sig
+          s!"len={sig.length} hdr={bit hdrOk} lowS={bit (Secp256k1.isLowS s)} own={own} other={oth} p2sh={p2sh} pert={pert}"
+      | _, _, _, _, _, _, _ => badArgs
+  | _, _ => none
 
 end Driver.C14
